@@ -168,8 +168,49 @@ Section C17_Signed.
   Proof.
     exact (signed_verify_iff Cert cert_serial cert_rawIssuer hash_sum parse_octets marshalAttributes check_signature).
   Qed.
+
+  (* Verify has no memory: its verdict is a function of the content PRESENT AT THE CALL (and the certificates and
+     signer infos).  So when one parsed object is verified, its Content field changed, and verified again, the second
+     call accepts only if, for every signer with signed attributes, the digest of the content present at the second
+     call equals the digest of the content of the first call (both equal the signed messageDigest attribute) - a
+     collision, or the same content.  (Round 6: a digest remembered from an earlier call breaks exactly this; the driver
+     replays call histories on one parsed object against the verdict of a single call, class VER hist=.) *)
+  Theorem C17_verify_again_other_content :
+    forall content1 content2 certs signers,
+      Verify Cert cert_serial cert_rawIssuer hash_sum parse_octets marshalAttributes check_signature
+             (mkP7 Cert content1 certs signers) = Ok tt ->
+      Verify Cert cert_serial cert_rawIssuer hash_sum parse_octets marshalAttributes check_signature
+             (mkP7 Cert content2 certs signers) = Ok tt ->
+      forall s, In s signers ->
+        exists h, getHashForOID (si_digestAlg s) = Ok h /\
+                  (si_attrs s <> [] ->
+                   unmarshalAttribute parse_octets (si_attrs s) gen_oid_AttributeMessageDigest = Ok (hash_sum h content2) /\
+                   hash_sum h content2 = hash_sum h content1).
+  Proof.
+    intros c1 c2 certs signers V1 V2 s Hin.
+    apply C17_signed_verify_iff in V1. apply C17_signed_verify_iff in V2.
+    destruct V1 as [_ F1]. destruct V2 as [_ F2]. cbn [p7_signers] in F1, F2.
+    rewrite Forall_forall in F1, F2. specialize (F1 s Hin). specialize (F2 s Hin).
+    destruct F1 as (h1 & H1 & sg1 & A1 & _). destruct F2 as (h2 & H2 & sg2 & A2 & _).
+    rewrite H1 in H2. injection H2 as <-.
+    exists h1. split; [exact H1|]. intros Hne.
+    destruct (si_attrs s) as [|a r]; [contradiction Hne; reflexivity|].
+    destruct A1 as (d1 & U1 & D1 & _). destruct A2 as (d2 & U2 & D2 & _).
+    cbn [p7_content] in D1, D2. subst d1 d2.
+    split; [exact U2|]. rewrite U1 in U2. injection U2 as E. symmetry. exact E.
+  Qed.
 End C17_Signed.
 Print Assumptions C17_signed_verify_iff.
+Print Assumptions C17_verify_again_other_content.
+
+(* non-vacuity: a history of three calls on the same certificates and signer infos - the signed content verifies, a
+   content with another digest then does not (Err 13: messageDigest mismatch), the signed content then verifies again *)
+Example C17_verify_again_example :
+  let signers := [mkSigner (mkIAS [9]%N 6) gen_oid_SM3 [mkAttr gen_oid_AttributeMessageDigest [77;1;2;3]%N] gen_oid_SM3withSM2 [1;1]%N] in
+  let V := Verify Z (fun c => c) (fun _ => [9]%N) (fun _ d => 77%N :: d) (fun v => Some v)
+             (fun attrs => Ok (List.concat (map at_value attrs))) (fun c alg signed sig => (c =? 6)%Z) in
+  map (fun content => V (mkP7 Z content [5;6]%Z signers)) [[1;2;3]%N; [1;2;4]%N; [1;2;3]%N; []] = [Ok tt; Err 13; Ok tt; Err 13].
+Proof. vm_compute. reflexivity. Qed.
 
 (* the algorithm tables as the source has them now: both SM3 OIDs select SM3 (defect D27, repaired) *)
 Theorem C17_hash_table :
